@@ -5,6 +5,7 @@ import (
 	"go/constant"
 	"go/token"
 	"go/types"
+	"sort"
 	"strings"
 
 	"golang.org/x/tools/go/ssa"
@@ -353,6 +354,7 @@ func KConsistent(p *core.Prog, r *core.Report) {
 	}
 	r.Count("member_validation_sites", nSites)
 	r.Floor("member_validation_sites", 7)
+	leafGroupPaths(p, r)
 
 	// missing required member: named <Path>.<k> with k the very element of Required that was looked up
 	if f := p.Func("(*objectValidator).validatePropertiesSchema"); f != nil {
@@ -421,4 +423,85 @@ func sameContainer(a, b ssa.Value) bool {
 	_, pa := a.(*ssa.Parameter)
 	_, pb := b.(*ssa.Parameter)
 	return pa && pb && a == b
+}
+
+// leafGroupPaths — LEAF-PATH: the keyword groups an outer validator builds for itself (type, enum, string, number,
+// format, slice, object, schema-props validators) all report under the outer validator's own path: inside the
+// methods of one outer type, every call of a group constructor passes the same path expression (sibling
+// agreement), and for the schema validator that expression is the receiver's path. A group built with another
+// path (e.g. "") names its errors after nothing.
+func leafGroupPaths(p *core.Prog, r *core.Report) {
+	const rule = "K-CONSISTENT"
+	pi := discoverPools(p)
+	ctors := ctorsOf(p, pi)
+	type site struct {
+		call *ssa.Call
+		desc string
+		fn   string
+	}
+	byOuter := map[string][]site{}
+	for _, f := range p.Funcs {
+		if f.Signature.Recv() == nil || f.Parent() != nil {
+			continue
+		}
+		T := core.NamedOf(f.Signature.Recv().Type())
+		if T == nil {
+			continue
+		}
+		outer := T.Obj().Name()
+		switch outer {
+		case "SchemaValidator", "ParamValidator", "HeaderValidator":
+			// (the items validator re-paths its groups with SetPath for every element: not covered)
+		default:
+			continue
+		}
+		core.EachInstr(f, func(i ssa.Instruction) {
+			c, ok := i.(*ssa.Call)
+			if !ok {
+				return
+			}
+			g := core.StaticCallee(c)
+			if g == nil || ctors[g] == nil || len(g.Params) == 0 || g.Params[0].Type().String() != "string" {
+				return
+			}
+			// only the validator's own groups: the call's value is returned by a builder method of the outer type
+			if len(c.Call.Args) == 0 {
+				return
+			}
+			byOuter[outer] = append(byOuter[outer], site{c, opDesc(c.Call.Args[0], 0), core.FuncName(f)})
+		})
+	}
+	n := 0
+	var outers []string
+	for o := range byOuter {
+		outers = append(outers, o)
+	}
+	sort.Strings(outers)
+	for _, outer := range outers {
+		sites := byOuter[outer]
+		count := map[string]int{}
+		for _, s := range sites {
+			count[s.desc]++
+		}
+		major, best := "", 0
+		for d, c := range count {
+			if c > best || (c == best && d < major) {
+				major, best = d, c
+			}
+		}
+		for _, s := range sites {
+			n++
+			key := "leaf-path:" + s.fn + ":" + core.StaticCallee(s.call).Name()
+			switch {
+			case s.desc != major:
+				r.Bad(rule, key, p.Pos(s.call.Pos()), fmt.Sprintf("this keyword group is built with path %s while the %d sibling groups of %s are built with %s: its errors are not located under the validator's path", s.desc, best, outer, major))
+			case outer == "SchemaValidator" && !strings.HasSuffix(major, ".Path"):
+				r.Bad(rule, key, p.Pos(s.call.Pos()), "the groups of the schema validator are not built with the validator's own path")
+			default:
+				r.OK(rule, key, p.Pos(s.call.Pos()), "built with "+major+" like its "+fmt.Sprint(best-1)+" siblings")
+			}
+		}
+	}
+	r.Count("leaf_group_constructions", n)
+	r.Floor("leaf_group_constructions", 16)
 }
